@@ -11,7 +11,7 @@ PROPERTY = 'C03'
 EVALUATIONS_KEYS = ['programs', 'incremental_runs']
 LEVEL = 'exploration'
 RULE = ('(a) exhaustive: every well-formed operator sequence of length <=2 (quick) / <=3 (thorough) over 35 parameter-instantiated operators x 7 input '
-        'classes (empty, singleton, ints, ints+exception objects, nested lists, None/falsy elements ending in None, nested lists of None), consumed by iteration / collect / drain; (b) seeded random programs '
+        'classes (empty, singleton, ints, ints+exception objects, nested lists, None/falsy elements ending in None, nested lists of None), consumed by iteration / collect / drain / a second iteration of the same Stream object after a complete or abandoned first one; (b) seeded random programs '
         'of length <=7 on lists up to 40; (c) one-to-one chains on an instrumented unbounded source: 0 pulls at construction, pulls <= k + sum of '
         'look-ahead after taking k outputs. non-trivial = program of >=2 operators whose reference output is non-empty or ends in an exception; '
         'distinct = distinct (program, input); (d) stalled consumption: consumer or source silent for 0.12-2.2 s while buffers / look-ahead windows are full')
@@ -133,6 +133,20 @@ def run_real(S, items, prog, mode):
     built_pulls = src.pulls
     out = []
     term = ('END',)
+    if mode in ('twice', 'peek-then-all'):
+        # the same Stream object consumed a second time (the source is re-iterable): the first pass -- complete, or left after one
+        # element -- must not change what the second pass yields
+        it = iter(st)
+        try:
+            for z in it:
+                if mode == 'peek-then-all':
+                    break
+        except Exception:  # noqa: BLE001
+            pass
+        close = getattr(it, 'close', None)
+        if close:
+            close()
+        mode = 'iter'
     try:
         if mode == 'iter':
             for z in st:
@@ -216,7 +230,7 @@ def run_case(case):
         progs = enum_programs(case['maxlen'], len(items_desc), kind)[case['start']:case['stop']]
         rng = random.Random(case['mode_seed'])
         for prog in progs:
-            mode = rng.choice(['iter', 'iter', 'collect', 'drain'])
+            mode = rng.choice(['iter', 'iter', 'collect', 'drain', 'twice', 'peek-then-all'])
             nt = check_program(S, viol, obs, items_desc, prog, mode)
             if nt == 'hang':
                 return {'violations': viol, 'obs': obs, 'exit_after': True}
@@ -248,7 +262,7 @@ def run_case(case):
                 kind = R.kind_after(kind, op)
             if rng.random() < 0.1:
                 prog.append(['shuffle', rng.choice([1, 3, 100])])
-            mode = rng.choice(['iter', 'collect', 'drain'])
+            mode = rng.choice(['iter', 'collect', 'drain', 'twice', 'peek-then-all'])
             nt = check_program(S, viol, obs, items_desc, prog, mode)
             if nt == 'hang':
                 return {'violations': viol, 'obs': obs, 'exit_after': True}
